@@ -519,5 +519,7 @@ func init() {
 			}
 			return "error"
 		},
-		nontrivial: func(args []string, out string) bool { return strings.Count(args[0], ",") >= 8 && strings.Count(args[1], ",") >= 1 }})
+		nontrivial: func(args []string, out string) bool {
+			return strings.Count(args[0], ",") >= 8 && strings.Count(args[1], ",") >= 1
+		}})
 }
